@@ -26,6 +26,7 @@ def fmt_ts(ts_string):
 
 class Check(CheckBase):
     property_id = 'C15'
+    evaluations_counter = 'filter_pairs'
     level = 'exploration'
     rule = ('histories of 3-9 snapshots by one user (plus a same-family second user) over 7 paths whose contents appear, change, '
             'become EMPTY and disappear, with controlled distinct timestamps (consecutive seconds, several within one second, '
